@@ -70,7 +70,10 @@ def handle (inp out : Sexp) : CaseResult :=
           match mDag, d with
           | .error _, .list [.atom "dagger-err"] => (true, true, "dagger-err")
           | .ok body, .list [.atom "dagger", .list (.atom "instrs" :: is'), r2] =>
-            let sameBody := Sexp.list (body.map encodeInstr) == Sexp.list is'
+            -- compared after decoding (parameters by the value the model's evaluator gives them, bit for bit)
+            let sameBody := match decodeAll decodeInstr is' with
+              | some b' => Sexp.list (body.map encodeInstr) == Sexp.list (b'.map encodeInstr)
+              | none => false
             match decodeRes r2 with
             | none => (false, true, "dagger-undecodable")
             | some impl2 =>
@@ -119,7 +122,8 @@ def handle (inp out : Sexp) : CaseResult :=
         let mOut : Sexp := match r with | some g' => encodeGate g' | none => .list [.atom "forked-err"]
         -- specification of the builders: the new modifier is outermost, its qubit is first, FORKED appends
         -- the alternative parameters (checked structurally on the implementation's output for the last op)
-        { agree := mOut == out, specOk := mOut == out, nontrivial := true,
+        let outC : Sexp := match decodeGate out with | some g' => encodeGate g' | none => out
+        { agree := mOut == outC, specOk := mOut == outC, nontrivial := true,
           tags := ["api", s!"ops{ops.length}", if r.isSome then "built" else "forked-err"],
           detail := s!"model={mOut} impl={out}" }
   | _ => .bad "undecodable input"
